@@ -60,8 +60,10 @@ Inductive gop :=
 
 Definition rcode (r : rclass) : Z := match r with ROk => 0 | RErr => 1 | RPanic => 2 end.
 
+(* both verdicts on a probed genesis state: Validate, and the class of InitGenesis, which the
+   implementation runs on every probed state (also those Validate refuses) on an emptied store *)
 Definition probe (e : env) (s : state) (g : genesis) : list Z :=
-  if validate_genesis g then [1; rcode (class_of (init_genesis (se e) (sv s) g))] else [0; -1].
+  [(if validate_genesis g then 1 else 0); rcode (class_of (init_genesis (se e) (sv s) g))].
 
 Definition gstep (e : env) (s : state) (o : gop) : outcome state Z :=
   match o with
